@@ -331,7 +331,7 @@ def _logdomain_violations(fn, relpath, qual, exp_fns=()):
         arg = n.args[0]
         hit = next((m for m in ast.walk(arg) if _is_array_product(m)), None)
         name = next((m.id for m in ast.walk(arg) if isinstance(m, ast.Name) and m.id in tainted), None)
-        if is_exp(arg) or (isinstance(arg, ast.Name) and arg.id in etaint):
+        if not _is_call_to(n, ("log1p",)) and (is_exp(arg) or (isinstance(arg, ast.Name) and arg.id in etaint)):      # log1p(exp(z)) is softplus, not the identity
             out.append(f"{relpath}:{n.lineno} in {qual(n.lineno)}: `{ast.unparse(n)[:100]}` takes the logarithm of an exponential: exp(z) leaves the float64 range for "
                        "|z| > 708 (log-integrals / log-densities of that size are ordinary), so the result is +-inf where z is finite; keep the value in the log domain")
             continue
@@ -478,8 +478,13 @@ def bad_global(x):
     _COUNT = x
     return x
 @functools.lru_cache(maxsize=None)
-def bad_memo(x):
-    return x
+def bad_memo(D):
+    return jnp.eye(D)
+@functools.lru_cache(maxsize=None)
+def good_memo(k, i):
+    return math.comb(k, i)
+def good_default(x, dims=[0]):
+    return x[dims[0]]
 def bad_module_dict(x):
     memo = _CACHE
     memo[id(x)] = x
@@ -501,7 +506,7 @@ def _is_container_literal(v):
         (isinstance(v, ast.Call) and isinstance(v.func, ast.Name) and v.func.id in ("dict", "list", "set", "defaultdict", "OrderedDict"))
 
 
-def _hidden_state_sites(tree, relpath, qual, module_names):
+def _hidden_state_sites(tree, relpath, qual, module_names, array_call=lambda c: True):
     """constructs through which a result can depend on earlier calls: mutable default arguments, `global` rebinding, memoisation
     decorators, and mutation (subscript / slice stores, mutating method calls) of module-level or class-level containers - directly,
     through `self.<name>` / `cls.<name>`, or through a local alias.  Read-only tables (name -> method dispatch dictionaries) are fine."""
@@ -526,14 +531,35 @@ def _hidden_state_sites(tree, relpath, qual, module_names):
     for fn in ast.walk(tree):
         if isinstance(fn, (ast.FunctionDef, ast.Lambda)):
             a = fn.args
-            for d in list(a.defaults) + [x for x in a.kw_defaults if x is not None]:
-                if _is_container_literal(d):
-                    out.append(f"{relpath}:{d.lineno} in {qual(d.lineno)}: mutable default argument `{ast.unparse(d)}` is shared between calls")
+            pos = a.posonlyargs + a.args
+            pairs = list(zip(pos[len(pos) - len(a.defaults):], a.defaults)) + [(k, d) for k, d in zip(a.kwonlyargs, a.kw_defaults) if d is not None]
+            for prm, d in pairs:
+                if not _is_container_literal(d):
+                    continue
+                # shared between calls only matters when the object is mutated, or escapes (returned / stored on an object) so that a caller can mutate it
+                nm, hit = prm.arg, None
+                for n in ast.walk(fn):
+                    if isinstance(n, (ast.Assign, ast.AugAssign)):
+                        for t in (n.targets if isinstance(n, ast.Assign) else [n.target]):
+                            if isinstance(t, ast.Subscript) and isinstance(t.value, ast.Name) and t.value.id == nm:
+                                hit = "is written"
+                            if isinstance(n, ast.AugAssign) and isinstance(t, ast.Name) and t.id == nm:
+                                hit = "is updated in place"
+                            if isinstance(t, ast.Attribute) and isinstance(n, ast.Assign) and isinstance(n.value, ast.Name) and n.value.id == nm:
+                                hit = "is stored on an object"
+                    elif isinstance(n, ast.Call) and isinstance(n.func, ast.Attribute) and n.func.attr in _MUTATORS and isinstance(n.func.value, ast.Name) and n.func.value.id == nm:
+                        hit = "is mutated"
+                    elif isinstance(n, ast.Return) and isinstance(n.value, ast.Name) and n.value.id == nm:
+                        hit = "is returned"
+                if hit:
+                    out.append(f"{relpath}:{d.lineno} in {qual(d.lineno)}: mutable default argument `{nm}={ast.unparse(d)}` {hit}: the one object is shared between calls")
         if not isinstance(fn, ast.FunctionDef):
             continue
         for dec in fn.decorator_list:
             name = ast.unparse(dec.func if isinstance(dec, ast.Call) else dec).split(".")[-1]
-            if name in _MEMO:
+            args0 = [x.arg for x in fn.args.posonlyargs + fn.args.args][:1]
+            pure_python = args0 not in (["self"], ["cls"]) and not any(isinstance(c, ast.Call) and array_call(c) for c in ast.walk(fn))
+            if name in _MEMO and not pure_python:
                 out.append(f"{relpath}:{dec.lineno} in {qual(fn.lineno)}: `@{ast.unparse(dec)[:60]}` memoises results across calls (objects are mutable: "
                            "normalize / update / update_Sigma change them; arrays are compared by identity)")
         aliases = set()
@@ -575,13 +601,22 @@ def hidden_state_ob(prog, group):
     def run():
         t = ast.parse(HS_SYNTH)
         names = module_containers(t)
-        got = _hidden_state_sites(t, "synthetic", lambda l: next((f.name for f in t.body if isinstance(f, ast.FunctionDef) and f.lineno <= l <= f.end_lineno), ""), names)
+        got = _hidden_state_sites(t, "synthetic", lambda l: next((f.name for f in t.body if isinstance(f, ast.FunctionDef) and f.lineno <= l <= f.end_lineno), ""), names,
+                                  lambda c: ast.unparse(c.func).startswith("jnp."))
         if len(got) != 4 or any("good" in g for g in got):
             raise Undecided(f"hidden-state rule: synthetic examples give {len(got)} sites (expected 4)")
         bad, nfun = [], 0
         for mod, tree in prog.modules.items():
             nfun += sum(1 for n in ast.walk(tree) if isinstance(n, ast.FunctionDef))
-            bad += _hidden_state_sites(tree, prog.relpath(mod), lambda l, mod=mod: prog.qualname_at(mod, l), module_containers(tree))
+            def array_call(c, mod=mod):
+                # anything but a resolved non-jax external (math.comb, len ...) or builtin may produce arrays / touch objects
+                r = prog.resolve_static(mod, c.func)
+                if r and r[0] == "ext" and not r[1].startswith(("jax", "numpy", "scipy")):
+                    return False
+                if isinstance(c.func, ast.Name) and c.func.id in ("len", "range", "tuple", "int", "float", "str", "sorted", "min", "max", "abs", "sum", "zip", "enumerate"):
+                    return False
+                return True
+            bad += _hidden_state_sites(tree, prog.relpath(mod), lambda l, mod=mod: prog.qualname_at(mod, l), module_containers(tree), array_call)
         if nfun < 100:
             raise Undecided(f"only {nfun} functions scanned")
         bad = sorted(set(bad))
@@ -589,6 +624,7 @@ def hidden_state_ob(prog, group):
             raise Refuted("; ".join(bad[:2]), bad[0].split(":")[0] + "::" + bad[0].split(" in ")[1].split(":")[0], bad)
         return [], dict(functions=nfun)
     return Ob("purity/no-hidden-state", run,
-              "no construct through which a result can depend on earlier calls: mutable default arguments, global rebinding, memoisation decorators, "
+              "no construct through which a result can depend on earlier calls: mutable default arguments that are mutated or escape, global rebinding, memoisation of "
+              "methods / array-valued functions, "
               "stores into module-level containers (instance caches are covered by the write rule of the API-table obligations)",
               "gaussian_toolbox/*", group=group)
